@@ -14,6 +14,12 @@
 //   - the calls index.Manager.syncDB makes inside the UpdateChainState closure and
 //     between the commit and the update of its in-memory tip.
 //
+// and (closures.go, -closures coq/Txn/gen/ClosureTable.v) every closure handed to
+// Store.transaction as a command of coq/Txn/Retry.v: control structure plus, per statement,
+// the variables it assigns and reads — so that closed_closure can be computed on the real code.
+//
+// Usage: go run tools/txnscan/main.go tools/txnscan/closures.go -out coq/Txn/TxnTable.v -closures coq/Txn/gen/ClosureTable.v
+//
 // Anything it does not understand is a hard error (non-zero exit), never a silent skip.
 package main
 
@@ -703,7 +709,17 @@ func main() {
 	}
 	out := flag.String("out", "", "output file (default stdout)")
 	flag.StringVar(&repo, "repo", repo, "repository root")
+	clOut := flag.String("closures", "", "output file for the closure table (coq/Txn/gen/ClosureTable.v)")
+	clDebug := flag.Bool("closures-debug", false, "print a summary of the closure analysis and exit")
 	flag.Parse()
+
+	if *clDebug {
+		debugClosures(scanClosures(repo))
+		return
+	}
+	if *clOut != "" {
+		writeIfChanged(*clOut, emitClosures(scanClosures(repo))+emitRetryLoop(repo))
+	}
 
 	files := parseDir(filepath.Join(repo, "persist/sqlite"))
 	byName, consts := collect(files)
@@ -761,14 +777,18 @@ func main() {
 		fmt.Print(sb.String())
 		return
 	}
-	if err := os.MkdirAll(filepath.Dir(*out), 0o755); err != nil {
+	writeIfChanged(*out, sb.String())
+}
+
+// writeIfChanged writes only when the content changed, so an unchanged table does not trigger a rebuild
+func writeIfChanged(path, content string) {
+	if err := os.MkdirAll(filepath.Dir(path), 0o755); err != nil {
 		fatal("%v", err)
 	}
-	// write only when the content changed, so an unchanged table does not trigger a rebuild
-	if old, err := os.ReadFile(*out); err == nil && string(old) == sb.String() {
+	if old, err := os.ReadFile(path); err == nil && string(old) == content {
 		return
 	}
-	if err := os.WriteFile(*out, []byte(sb.String()), 0o644); err != nil {
+	if err := os.WriteFile(path, []byte(content), 0o644); err != nil {
 		fatal("%v", err)
 	}
 }
